@@ -8,7 +8,7 @@ pub uninterp spec fn md5(m: Seq<u8>) -> Seq<u8>;
 pub proof fn axiom_md5_len(m: Seq<u8>) ensures md5(m).len() == 16 { }
 
 pub type ObjectId = (u32, u16);
-pub enum DecryptionError { MissingFileID, InvalidType, InvalidKeyLength, IncorrectPassword, Padding, Other }
+pub enum DecryptionError { MissingFileID, InvalidType, InvalidKeyLength, IncorrectPassword, InvalidRevision, InvalidHashLength, Padding, Other }
 pub struct Rc4CryptFilter;
 pub struct Aes128CryptFilter;
 pub struct Aes256CryptFilter;
@@ -178,3 +178,67 @@ pub fn fill_random_from(v: &mut Vec<u8>, from: usize)
     requires from <= old(v)@.len()
     ensures final(v)@.len() == old(v)@.len(), final(v)@.subrange(0, from as int) == old(v)@.subrange(0, from as int)
 { unimplemented!() }
+
+// ---- Algorithms 6 and 7 (7.6.3.4): authenticating the user / owner password ---------------------------------------
+#[verifier::external_body]
+pub fn prefix_eq(a: &Vec<u8>, b: &Vec<u8>, n: usize) -> (r: bool)
+    requires n <= a@.len(), n <= b@.len()
+    ensures r == (a@.subrange(0, n as int) == b@.subrange(0, n as int))
+{ a[..n] == b[..n] }
+/// the owner key of Algorithm 3 steps a-d (shared by Algorithm 7 step a)
+pub open spec fn owner_key(pw: Seq<u8>, revision: int, length_bits: Option<usize>) -> Seq<u8> {
+    let h0 = md5(pad32(pw));
+    let h = if revision >= 3 { md5_full_rounds(h0, 50) } else { h0 };
+    h.subrange(0, key_bytes(revision, length_bits))
+}
+/// Algorithm 7 step b for revision >= 3: rounds i = 19, 18, .., k (k >= 1), round i uses key XOR i
+pub open spec fn rc4_rounds_down(key: Seq<u8>, data: Seq<u8>, k: int) -> Seq<u8> decreases 20 - k {
+    if k > 19 { data } else { rc4(xor_key(key, k as u8), rc4_rounds_down(key, data, k + 1)) }
+}
+pub open spec fn alg7_user(owner_pw: Seq<u8>, o: Seq<u8>, revision: int, length_bits: Option<usize>) -> Seq<u8> {
+    let key = owner_key(owner_pw, revision, length_bits);
+    rc4(key, if revision >= 3 { rc4_rounds_down(key, o, 1) } else { o })
+}
+pub open spec fn alg6_ok(u_computed_r2: Seq<u8>, u16_computed: Seq<u8>, u: Seq<u8>, revision: int) -> bool {
+    if revision == 2 { u.len() >= 32 && u_computed_r2 == u.subrange(0, 32) } else { u.len() >= 16 && u16_computed == u.subrange(0, 16) }
+}
+
+pub open spec fn file_key(a: &PasswordAlgorithm, doc: &Document, pw: Seq<u8>) -> Seq<u8> {
+    alg2(pw, a.owner_value@, ((a.permissions.flags | 0xFFFF_FFFF_FFFF_F0C0u64) as u32) as nat, doc.id0->Ok_0@, a.revision as int, a.encrypt_metadata, a.length)
+}
+/// Algorithm 6: the password is the user password iff the U value computed from it matches the stored one
+pub open spec fn user_auth_ok(a: &PasswordAlgorithm, doc: &Document, pw: Seq<u8>) -> bool {
+    2 <= a.revision <= 4 && doc.id0 is Ok && key_bytes(a.revision as int, a.length) <= 16
+    && alg6_ok(alg4(file_key(a, doc, pw)), alg5_16(file_key(a, doc, pw), doc.id0->Ok_0@), a.user_value@, a.revision as int)
+}
+/// Algorithm 7: the password is the owner password iff the user password recovered from O authenticates
+pub open spec fn owner_auth_ok(a: &PasswordAlgorithm, doc: &Document, pw: Seq<u8>) -> bool {
+    key_bytes(a.revision as int, a.length) <= 16 && user_auth_ok(a, doc, alg7_user(pw, a.owner_value@, a.revision as int, a.length))
+}
+
+// Algorithm 7 undoes Algorithm 3: with the owner password, the padded user password comes back out of O.
+pub proof fn lemma_rc4_twice(key: Seq<u8>, x: Seq<u8>) ensures rc4(key, rc4(key, x)) =~= x
+{ lemma_rc4_involution(ksa(key, 256).0, x); }
+pub proof fn lemma_rounds_undo(key: Seq<u8>, x: Seq<u8>, k: int)
+    requires 0 <= k <= 19
+    ensures rc4_rounds_down(key, rc4_rounds(key, x, 19), k + 1) =~= rc4_rounds(key, x, k)
+    decreases 19 - k
+{
+    if k == 19 { }
+    else {
+        lemma_rounds_undo(key, x, k + 1);
+        // down(k+1) = rc4(xor(k+1), down(k+2)) = rc4(xor(k+1), rounds(k+1)) = rc4(xor(k+1), rc4(xor(k+1), rounds(k))) = rounds(k)
+        lemma_rc4_twice(xor_key(key, (k + 1) as u8), rc4_rounds(key, x, k));
+    }
+}
+pub proof fn lemma_alg7_inverts_alg3(owner_pw: Seq<u8>, user_pw: Seq<u8>, revision: int, l: Option<usize>)
+    ensures alg7_user(owner_pw, alg3(Some(owner_pw), user_pw, revision, l), revision, l) =~= pad32(user_pw)
+{
+    let key = owner_key(owner_pw, revision, l);
+    let c0 = rc4(key, pad32(user_pw));
+    if revision >= 3 {
+        lemma_rounds_undo(key, c0, 0);
+        assert(rc4_rounds(key, c0, 0) == c0);
+    }
+    lemma_rc4_twice(key, pad32(user_pw));
+}
